@@ -193,9 +193,24 @@ func (hs *serverHandshakeStateGM) readClientHello() (isResume bool, err error) {
 		}
 	}
 
-	// just for test
-	c.config.getCertificate(hs.clientHelloInfo())
 	hs.cert = c.config.Certificates
+	if len(hs.cert) < 2 {
+		// certificates supplied through GetCertificate (signing) and
+		// GetKECertificate (key exchange), as documented on Config
+		sigCert, err := c.config.getCertificate(hs.clientHelloInfo())
+		if err != nil {
+			c.sendAlert(alertInternalError)
+			return false, err
+		}
+		encCert, err := c.config.getEKCertificate(hs.clientHelloInfo())
+		if err != nil {
+			c.sendAlert(alertInternalError)
+			return false, err
+		}
+		if sigCert != nil && encCert != nil {
+			hs.cert = []Certificate{*sigCert, *encCert}
+		}
+	}
 
 	// GMT0024
 	if len(hs.cert) < 2 {
